@@ -311,6 +311,7 @@ fn run_one(input: &Input) -> Value {
     res["allocated"] = json!(allocated);
     // token streams and pretty-printing cost a few hundred bytes of (cumulative) allocation per
     // byte of output: the budget grows with what was written, the hard cap on live memory does not
+    crate::drive::release_spans();
     let output = res["output_bytes"].as_u64().unwrap_or(0);
     res["budget"] = json!(budget(bytes) + 1024 * output);
     res
